@@ -4,7 +4,7 @@ from fractions import Fraction
 from ..facts import mname
 from ..mir import storage_call, switch_conds, cmp_true_false_edges, try_edges
 from ..dataflow import (field_sources, single_var_guard, single_var_regions, single_var_walk, cut_path_exists,
-                        const_of, truth_table, region_walk, cmp_truth, FLIP)
+                        const_of, truth_table, region_walk, cmp_truth, FLIP, cond_at)
 from ..guards import ok_return_blocks
 from ..effects import site_term
 
@@ -24,6 +24,8 @@ store: for every CONFIG.save in the instantiate/update paths the sources of the 
 reach the save without crossing the pass edge of the validator applied to that same value. The vault's
 burn-fee/token-factory test must be applied to the vault asset at both sites. std-level validators are decided
 on the workspace copy and, in the thorough tier, on the registry copy the contracts actually link.
+vault-burn also requires that every new value of CONFIG.fees can reach the save only across `!has_factory_token(asset)`
+or `burn_fee.share == 0` evaluated on those fees (instantiate and update_config).
 """
 ASSUMPTIONS = [
     "Decimal/Uint comparison operators implement the numeric order (cosmwasm-std)",
@@ -419,6 +421,35 @@ def check_vault_burn_fee(ctx, model, v):
         ok = bool(os_) and all(o.proj and o.proj[-1] == "asset_info" for o in os_)
         ctx.ob("C18-vault-burn", "%s|has_factory_token|operand" % v.path, ok,
                "has_factory_token is applied to %s (must be the vault asset `asset_info`)" % sorted(map(repr, os_)), v.where(b))
+    # ... and the test guards every new value of CONFIG.fees on its way to the save: a path from the new value to the
+    # save must cross `!has_factory_token(asset)` or `!(burn_fee.share > 0)` evaluated on the stored fees
+    for sb, t in saves_of(v, "vault::state::CONFIG"):
+        news = [s_ for s_ in field_sources(v, t["args"][2], ("fees",), v.at_term(sb)) if s_.kind != "load"]
+        for s_ in news:
+            if s_.block is None:
+                ctx.ob("C18-vault-burn", "%s|fees|guarded" % v.path, False, "unrecognised source %r of CONFIG.fees" % (s_,), v.where(sb), kind="unrecognised")
+                continue
+            so = v.origins_of_operand(s_.operand, at=(s_.block, s_.idx)) if s_.operand is not None else set()
+            roots = {(o.kind, o.a) for o in so}
+            pass_edges = []
+            for b, c, _ in switch_conds(v):
+                te, fe = cmp_true_false_edges(v, b, c)
+                if c.kind == "call" and c.callee == "white_whale_std::pool_network::asset::has_factory_token":
+                    pass_edges += te if c.neg else fe
+                elif c.kind == "cmp" and c.op in (">", "<", "!=", "==", ">=", "<="):
+                    at = cond_at(v, c)
+                    oa, ob = v.origins_of_operand(c.a, at=at), v.origins_of_operand(c.b, at=at)
+                    for x, y, op in ((oa, c.b, c.op), (ob, c.a, {">": "<", "<": ">", ">=": "<=", "<=": ">="}.get(c.op, c.op))):
+                        is_share = bool(x) and all(tuple(o.proj[-2:]) == ("burn_fee", "share") and (not roots or (o.kind, o.a) in roots) for o in x)
+                        if is_share and const_of(v, y, at) == 0:
+                            # share > 0 -> pass on false; share == 0 / share <= 0 -> pass on true; share != 0 like > 0
+                            if op in (">", "!="):
+                                pass_edges += fe
+                            elif op in ("==", "<="):
+                                pass_edges += te
+            ok = bool(pass_edges) and not cut_path_exists(v, pass_edges, s_.block, sb)
+            ctx.ob("C18-vault-burn", "%s|fees|guarded" % v.path, ok,
+                   "new fees %r %s reach CONFIG.save without passing `not a token-factory asset` or `burn share == 0`" % (s_, "cannot" if ok else "CAN"), v.where(s_.block))
 
 
 def check_config_writers(ctx, model):
